@@ -244,10 +244,45 @@ func fcInv(c *fsConfig) bool {
 // itself (or by the callees that are under contract) targets a field of the caller's
 // configuration. Callees without a contract (store, engines) are assumed not to: they receive the
 // derived sys.Context, never the configuration object.
+//@ prop C19 C10
 //@ func (r *runtime) InstantiateModule(ctx context.Context, compiled CompiledModule, mConfig ModuleConfig) (mod api.Module, err error)
 //@   requires isModuleConfig(mConfig)
+//@   ensures[closed-runtime-refuses] old(runtimeClosed(r)) ==> err != nil
 //@   preserves obj(mConfig.(*moduleConfig))
 //@   nosafety
 //@   inline-depth 1
 
 func isModuleConfig(m ModuleConfig) bool { _, ok := m.(*moduleConfig); return ok }
+
+// ======================= C10: a closed runtime refuses further work =======================
+
+func runtimeClosed(r *runtime) bool { return r.closed.Load() != 0 }
+
+//@ prop C10
+//@ func (r *runtime) failIfClosed() error
+//@   ensures (r0 != nil) == runtimeClosed(r)
+//@   modifies nothing
+
+//@ func (r *runtime) CompileModule(ctx context.Context, binary []byte) (CompiledModule, error)
+//@   ensures[closed-runtime-refuses] old(runtimeClosed(r)) ==> r1 != nil
+//@   nosafety
+//@   inline-depth 1
+
+//@ func (b *hostModuleBuilder) Compile(ctx context.Context) (CompiledModule, error)
+//@   requires b.r != nil
+//@   ensures[closed-runtime-refuses] old(runtimeClosed(b.r)) ==> r1 != nil
+//@   nosafety
+//@   inline-depth 1
+
+//@ func (b *hostModuleBuilder) Instantiate(ctx context.Context) (api.Module, error)
+//@   requires b.r != nil
+//@   ensures[closed-runtime-refuses] old(runtimeClosed(b.r)) ==> r1 != nil
+//@   nosafety
+//@   inline-depth 1
+
+//@ func (r *runtime) CloseWithExitCode(ctx context.Context, exitCode uint32) error
+//@   ensures[closed-afterwards] runtimeClosed(r)
+//@   ensures[first-close-wins] old(runtimeClosed(r)) ==> r.closed.Load() == old(r.closed.Load()) && r0 == nil
+//@   callees-preserve r.closed
+//@   nosafety
+//@   inline-depth 1
